@@ -36,14 +36,15 @@ COLLIDE = ["QDense", "QConv2D", "QActivation", "QBatchNormalization", "QDepthwis
            "QBidirectional", "QAveragePooling2D", "QConv1D", "QSeparableConv2D", "Dense", "Activation",
            "QAdaptiveActivation", "QGRU", "QSimpleRNN"]
 
-DENSE_LIKE = ["Dense", "Conv1D", "Conv2D", "Conv2DTranspose", "SeparableConv1D", "SeparableConv2D"]
+DENSE_LIKE = ["Dense", "Conv1D", "Conv2D", "Conv2DTranspose"]
+SEPARABLE = ["SeparableConv1D", "SeparableConv2D"]
 RNN = ["SimpleRNN", "LSTM", "GRU"]
 RELUS = ["ReLU", "LeakyReLU"]
 POOL = ["AveragePooling2D", "GlobalAveragePooling2D"]
 
 # keys a conversion may write, per kind (everything else in a layer's config must be preserved)
 QKEYS = {
-    "conv": ["kernel_quantizer", "depthwise_quantizer", "bias_quantizer", "activation"],
+    "conv": ["kernel_quantizer", "depthwise_quantizer", "pointwise_quantizer", "bias_quantizer", "activation"],
     "rnn": ["kernel_quantizer", "recurrent_quantizer", "bias_quantizer", "state_quantizer", "activation",
             "recurrent_activation"],
     "bn": ["gamma_quantizer", "beta_quantizer", "mean_quantizer", "variance_quantizer"],
@@ -61,7 +62,7 @@ QCLASS_OWN = {"gamma_constraint", "beta_constraint", "kernel_constraint", "bias_
 
 
 def kind_of(cls):
-  if cls in DENSE_LIKE or cls == "DepthwiseConv2D":
+  if cls in DENSE_LIKE or cls in SEPARABLE or cls == "DepthwiseConv2D":
     return "conv"
   if cls in RNN:
     return "rnn"
@@ -142,7 +143,12 @@ class Gen:
     if r < 0.63:
       return {"t": "LeakyReLU", "kw": ({"alpha": float(self.ch([0.0, 0.125, 0.3]))} if self.p(0.6) else {})}
     if r < 0.90:
-      return {"t": "BatchNormalization", "kw": ({"center": False} if self.p(0.15) else {})}
+      # without affine parameters (center / scale False) the layer owns fewer / only non-trainable
+      # weights (the moving statistics)
+      b = self.rng.random()
+      kw = ({"center": False} if b < 0.10 else {"scale": False} if b < 0.18 else
+            {"center": False, "scale": False} if b < 0.30 else {})
+      return {"t": "BatchNormalization", "kw": kw}
     return {"t": "Dropout", "kw": {"rate": 0.25}}
 
   def dense(self, units=None):
@@ -266,6 +272,12 @@ class Gen:
     n_layers = 1 + len(m["body"]) + (sum(len(a) for a in m["branch"]["arms"]) + 1 if "branch" in m else 0)
     n_inner = sum((2 if "backward" in l else 1) for l in m["body"] if l["t"] == "Bidirectional")
     names = self.names(n_layers + n_inner)
+    # frozen layers (trainable=False, e.g. a frozen feature extractor): their weights are all
+    # non-trainable, and must be preserved / transferred like any others
+    every = [l for a in m.get("branch", {}).get("arms", []) for l in a] + m["body"]
+    for l in every:
+      if self.p(0.15):
+        l["kw"]["trainable"] = False
     it = iter(names)
     m["input_name"] = next(it)
     if "branch" in m:
@@ -322,16 +334,21 @@ def gen_entry(g, cls, malformed_ok=True):
   if malformed_ok and g.p(0.03):
     return g.ch(["quantized_bits(4)", 3, ["quantized_bits(4)"], True]) if k not in ("act", "relu") else g.ch([3, True])
   if k == "conv":
-    kk = "depthwise_quantizer" if cls == "DepthwiseConv2D" else "kernel_quantizer"
+    kk = "kernel_quantizer" if cls in DENSE_LIKE else "depthwise_quantizer"
     e = {}
     if g.p(0.85):
       e[kk] = g.ch(W_Q)
+    if cls in SEPARABLE:
+      # QSeparableConv1D/2D: depthwise_quantizer + pointwise_quantizer (the entries AutoQKeras writes);
+      # `kernel_quantizer` is not a key of these classes and must not select or change anything
+      if g.p(0.75):
+        e["pointwise_quantizer"] = g.ch(W_Q + [None])
+      if g.p(0.12):
+        e["kernel_quantizer"] = g.ch(W_Q)
     if g.p(0.7):
       e["bias_quantizer"] = g.ch(W_Q + [None])
     if g.p(0.3):
       e["activation_quantizer"] = g.ch(A_Q + [""])
-    if cls == "SeparableConv2D" or cls == "SeparableConv1D":
-      pass
     return e
   if k == "rnn" or k == "bidir":
     e = {}
@@ -493,11 +510,14 @@ def expected(l, qc, bits, prefer):
   k = kind_of(cls)
   if k == "conv":
     e = entry_for(qc, name, "Q" + cls)
-    kk = "depthwise_quantizer" if cls == "DepthwiseConv2D" else "kernel_quantizer"
+    kk = "kernel_quantizer" if cls in DENSE_LIKE else "depthwise_quantizer"
     if not isinstance(e, dict) or e.get(kk) is None:
       return None
-    return ("Q" + cls, {kk: e[kk], "bias_quantizer": e.get("bias_quantizer") if cfg["use_bias"] else None,
-                        "activation": e.get("activation_quantizer") or qact(cfg.get("activation"), bits)}, [])
+    q = {kk: e[kk], "bias_quantizer": e.get("bias_quantizer") if cfg["use_bias"] else None,
+         "activation": e.get("activation_quantizer") or qact(cfg.get("activation"), bits)}
+    if cls in SEPARABLE:      # the quantized class takes a depthwise and a pointwise quantizer
+      q["pointwise_quantizer"] = e.get("pointwise_quantizer")
+    return ("Q" + cls, q, [])
   if k == "rnn":
     q = expect_rnn(entry_for(qc, name, "Q" + cls), cfg, cls, bits)
     return None if q is None else ("Q" + cls, q, [])
@@ -668,6 +688,7 @@ def run(run: core.Run, tier: str):
       except Exception:  # pylint: disable=broad-except
         run.count("generator_spec_unbuildable")     # a spec Keras itself rejects (deterministic)
         continue
+      randomize_weights(model, [run.seed, ci, 12])
       res = execute(env, qu, model, qc, flags)
       res.update({"stream": stream, "spec": spec, "qc": qc, "flags": flags, "ci": ci})
       lines.append({"op": "rewrite", "layers": res["src_layers"], "qc": qc,
@@ -761,11 +782,44 @@ def fixed_cases():
   out.append(("fixed", spec, {"bi": {"kernel_quantizer": "quantized_bits(4,0,1)",
                                       "recurrent_quantizer": "quantized_bits(4,0,1)",
                                       "bias_quantizer": "quantized_bits(4)"}}, dict(fl)))
-  # layers with a registered (custom) class name next to converted layers
+  # layers with a registered (custom) class name next to converted layers, and with nothing selected
   for first in (False, True):
     out.append(("fixed", {"custom": True, "first": first, "family": "custom", "functional": True},
                 {"QDense": {"kernel_quantizer": "quantized_bits(4,0,1)"}}, dict(fl)))
+  out.append(("fixed", {"custom": True, "first": True, "family": "custom", "functional": True}, {}, dict(fl)))
+  # separable convolutions: the entry AutoQKeras writes (class entry / name entry, bias-less), an
+  # entry with the depthwise quantizer only, and a `kernel_quantizer`-only entry (selects nothing)
+  sep_e = {"depthwise_quantizer": "quantized_bits(4,0,1)", "pointwise_quantizer": "quantized_bits(3,0,1)",
+           "bias_quantizer": "quantized_bits(4)"}
+  spec = {"input": [6, 6, 2], "family": "img", "functional": True, "input_name": "in0", "body": [
+      {"t": "SeparableConv2D", "name": "s0", "kw": {"filters": 2, "kernel_size": 2, "use_bias": True,
+                                                     "activation": "relu", "padding": "same"}},
+      {"t": "SeparableConv2D", "name": "s1", "kw": {"filters": 3, "kernel_size": 1, "use_bias": False,
+                                                     "activation": None, "padding": "valid"}},
+      {"t": "Flatten", "name": "fl", "kw": {}},
+      {"t": "Dense", "name": "d1", "kw": {"units": 2, "use_bias": True, "activation": None}}]}
+  out.append(("fixed", spec, {"QSeparableConv2D": sep_e}, dict(fl)))
+  out.append(("fixed", spec, {"s1": dict(sep_e, activation_quantizer="quantized_relu(6,2)"),
+                              "QSeparableConv2D": {"depthwise_quantizer": "ternary()"}}, dict(fl)))
+  out.append(("fixed", spec, {"QSeparableConv2D": {"kernel_quantizer": "quantized_bits(4,0,1)"}}, dict(fl)))
+  spec = {"input": [4, 3], "family": "seq", "functional": False, "input_name": "in0", "body": [
+      {"t": "SeparableConv1D", "name": "s0", "kw": {"filters": 2, "kernel_size": 2, "use_bias": True,
+                                                     "activation": "tanh", "padding": "same"}},
+      {"t": "Flatten", "name": "fl", "kw": {}},
+      {"t": "Dense", "name": "d1", "kw": {"units": 2, "use_bias": True, "activation": None}}]}
+  out.append(("fixed", spec, {"QSeparableConv1D": sep_e}, dict(fl)))
   return out
+
+
+def randomize_weights(model, seed_seq):
+  """a "trained" source model: no weight of any layer (trainable or not: kernels, biases, BN affine
+  parameters and moving statistics, recurrent kernels) is left at the value a fresh layer of the
+  same configuration would start from.  Values in [0.25, 0.75] (valid for variances)."""
+  rng = np.random.default_rng(seed_seq)
+  for layer in model.layers:
+    ws = layer.get_weights()
+    if ws:
+      layer.set_weights([rng.uniform(0.25, 0.75, size=w.shape).astype(w.dtype) for w in ws])
 
 
 def build_custom(keras, spec):
@@ -846,12 +900,15 @@ def execute(env, qu, model, qc, flags):
     res["q_names"] = [l.name for l in qm.layers]
     res["q_shapes"] = [str(l.output_shape) for l in qm.layers]
     res["q_types"] = {l.name: type(l).__name__ for l in qm.layers}
+    # every weight of every layer, trainable and non-trainable (get_weights() = trainable_weights +
+    # non_trainable_weights, wrapped layers included), by position
     wc = []
     for bl, ql in zip(base.layers, qm.layers):
       a = bl.get_weights()
       if a:
         b = ql.get_weights()
-        wc.append((type(bl).__name__, len(a) == len(b) and all(np.array_equal(x, y) for x, y in zip(a, b))))
+        same = len(a) == len(b) and all(x.shape == y.shape and np.array_equal(x, y) for x, y in zip(a, b))
+        wc.append((type(bl).__name__, same, len(bl.trainable_weights), len(bl.non_trainable_weights)))
     res["weights_cmp"] = wc
   return res
 
@@ -980,10 +1037,15 @@ def judge(run, res, line, o):
 
   # weights
   if flags["transfer_weights"] and not res["folding"]:
-    for lcls, same in res["weights_cmp"]:
+    for lcls, same, n_tr, n_ntr in res["weights_cmp"]:
       run.count("weights_transferred_layers")
+      run.count("weights_transferred_tensors_trainable", n_tr)
+      run.count("weights_transferred_tensors_non_trainable", n_ntr)
+      if n_tr == 0:
+        run.count("weights_transferred_layers_without_trainable_weights")
       if not same:
-        run.violate("transfer_weights", {"what": "weights differ", "layer_class": lcls}, detail, mirrored=False)
+        run.violate("transfer_weights", {"what": "weights differ", "layer_class": lcls,
+                                         "has_trainable_weights": n_tr > 0}, detail, mirrored=False)
 
   if not wf or res["folding"]:
     run.count("clauses_skipped_malformed_or_folding")
